@@ -306,6 +306,38 @@ def run(ctx):
         ok = init is not None and isinstance(init[0], Form) and (init[0] == red or any(a[0] == "phi" and red in a[2] for a in init[0].atoms()))
         ctx.check("C04.4", ok, fi, init[1] if init else fi.node, f"PRBS{n}: initial register = {init[0]!r}"[:200] if init else f"PRBS{n}: initial register", f"seed mod 2^{n} (identity on every reachable state 1..2^{n}-1)",
                   "the loop does not start from seed mod 2^order: a returned state fed back as seed does not resume the stream")
+    # ---------------- C04.4 the loop performs exactly `len` emit+update steps (so the returned state is the state after len bits)
+    if loop is not None:
+        lenp = fi.params[1] if len(fi.params) > 1 else "len"
+        early = [n_ for n_ in ast.walk(loop) if isinstance(n_, (ast.Break, ast.Return, ast.Continue))]
+        if early:
+            e0 = early[0]
+            holder = e0
+            while getattr(holder, "_parent", None) is not None and not isinstance(holder._parent, (ast.While, ast.For)):
+                holder = holder._parent
+            ctx.violation("C04.4", fi, holder, f"PRBS loop: early `{type(e0).__name__.lower()}` under `{src_of(holder.test) if isinstance(holder, ast.If) else src_of(holder)[:60]}`",
+                          "the generator loop can stop (or skip the update) before `len` steps: the state returned with return_seed is then not the state after the last emitted bit, "
+                          "so generating a+b bits in two resumed calls differs from one call")
+        else:
+            ctx.holds("C04.4", fi, loop, "PRBS loop: no early exit", "every iteration emits one bit and updates the register")
+        top = loop.body
+        upd_top = [s_ for s_ in top if isinstance(s_, ast.Assign) and isinstance(s_.targets[0], ast.Name) and any(isinstance(x, ast.Name) and x.id == s_.targets[0].id for x in ast.walk(s_.value)) and "<<" in src_of(s_.value) or (isinstance(s_, ast.Assign) and isinstance(s_.targets[0], ast.Name) and ">>" in src_of(s_.value) and "|" in src_of(s_.value))]
+        out_top = [s_ for s_ in top if isinstance(s_, ast.Assign) and isinstance(s_.targets[0], ast.Subscript)]
+        ok_struct = len(out_top) == 1 and len(upd_top) >= 1
+        if isinstance(loop, ast.While):
+            t = loop.test
+            ok_test = isinstance(t, ast.Compare) and len(t.ops) == 1 and isinstance(t.ops[0], ast.Lt) and isinstance(t.left, ast.Name) and src_of(t.comparators[0]) == lenp
+            cnt = t.left.id if ok_test else None
+            incs = [s_ for s_ in top if isinstance(s_, ast.AugAssign) and isinstance(s_.target, ast.Name) and s_.target.id == cnt and isinstance(s_.op, ast.Add) and src_of(s_.value) == "1"]
+            all_incs = [s_ for s_ in ast.walk(loop) if isinstance(s_, (ast.AugAssign, ast.Assign)) and any(isinstance(x, ast.Name) and x.id == cnt and isinstance(x.ctx, ast.Store) for x in ast.walk(s_))]
+            init = [s_ for s_ in fi.node.body if isinstance(s_, ast.Assign) and isinstance(s_.targets[0], ast.Name) and s_.targets[0].id == cnt and src_of(s_.value) == "0"]
+            ok_cnt = ok_test and len(incs) == 1 and len(all_incs) == 1 and bool(init)
+            idx_ok = len(out_top) == 1 and src_of(out_top[0].targets[0].slice) == cnt
+        else:
+            ok_cnt = isinstance(loop.iter, ast.Call) and src_of(loop.iter.func) == "range" and len(loop.iter.args) == 1 and src_of(loop.iter.args[0]) == lenp
+            idx_ok = len(out_top) == 1 and src_of(out_top[0].targets[0].slice) == src_of(loop.target)
+        ctx.check("C04.4", ok_struct and ok_cnt and idx_ok, fi, loop, "PRBS loop: counter runs 0..len-1, one unconditional output store and register update per iteration", "exactly `len` steps",
+                  "the loop does not perform exactly one unconditional emit+update per counter value 0..len-1: the number of generator steps differs from the number of bits requested")
     # ---------------- C04.5 remaining guards
     it = Interp(pkg, param_values={"order": Form.num(7)}, assumptions={"seed": "notnone", "len": "notnone"})
     outs = it.run(fi)
@@ -333,5 +365,5 @@ def run(ctx):
     ctx.require_min("C04.1", 7)
     ctx.require_min("C04.2", 7)
     ctx.require_min("C04.3", 21)
-    ctx.require_min("C04.4", 14)
+    ctx.require_min("C04.4", 16)
     ctx.require_min("C04.5", 4)
